@@ -199,9 +199,23 @@ theorem C03_code_compaction_order_L0 (needLevel : Bool) (l0 l1 : List Nat) (newI
 #print axioms C03_nothing_invented
 #print axioms C03_program_obeys_rules
 #print axioms C03_program_crash_anywhere
+/-- the code of `levelManager.flushToL0` and `levelManager.writeTable` (translated on every run): a flush builds one table
+    from all the entries of the memtable, names it with the fresh index, registers it as the newest table of L0 and
+    publishes it by a rename that follows the complete write and the fsync of a temporary file -/
+theorem C03_code_flush_publishes (noLevel : Bool) (newIdx : Nat) (wf : Bool) (cf w sf clf rf : Bool) :
+    GenLevel.flushToL0 noLevel newIdx wf [] =
+      (!wf, [("lm.mu.Lock", 0), ("filter.Build(all entries)", 0), ("table.Build(all entries)", 0)] ++
+        (if noLevel then [("new level", 0)] else []) ++
+        [("name := maxLevelIdx(L0)+1", newIdx), ("PushBack L0", newIdx), ("writeTable L0", newIdx)]) ∧
+    ((GenLevel.writeTable cf w sf clf rf []).1 = true →
+      (GenLevel.writeTable cf w sf clf rf []).2 = ["create tmp", "write tmp", "fsync tmp", "close tmp", "rename tmp -> name"]) := by
+  refine ⟨LevelTie.flushToL0_table noLevel newIdx wf, ?_⟩
+  cases cf <;> cases w <;> cases sf <;> cases clf <;> cases rf <;> decide
+
 #print axioms C03_code_fresh_table_name
 #print axioms C03_code_flush_then_delete
 #print axioms C03_code_recovery_merge
 #print axioms C03_code_compaction_order
 #print axioms C03_code_compaction_order_L0
+#print axioms C03_code_flush_publishes
 end Props
